@@ -36,6 +36,5 @@ Proof.
   split; [vm_compute; reflexivity|].
   apply p2m_shape_all_sizes.
   - exact ex_hyps.
-  - apply vextb_sound; [exact ex_temp_pwf|vm_compute; reflexivity].
   - apply rounds_ext_sound; [exact ex_temp_pwf|vm_compute; reflexivity].
 Qed.
